@@ -218,11 +218,17 @@ def rule_announce(ctx, res, content=True):
     res.check(len(aggs) == 1 and aggs[0][0].path == b.path, 'WHO', 'message::Request::AnnouncePeer', 'announce_peer queries are constructed at exactly one site (the finishing routine)',
               detail='%s' % [(x[0].path, x[2]['sp']) for x in aggs])
     edges = cond_edges(b, s.paths, lambda lit: lit[0] == 'bool' and is_field_of_param(lit[1], 'self', 'will_announce') and lit[3] is True)
+    def on_all_paths(blk):
+        # path form of the same obligation (the flag test sits in a helper that returns an empty target list, so the CFG joins
+        # before the loop): every enumerated path through the block has taken the will_announce == true edge
+        through = [p for p in s.paths if blk in p.blocks]
+        return bool(through) and not gap and all(any(literal(c)[0] == 'bool' and is_field_of_param(literal(c)[1], 'self', 'will_announce') and literal(c)[3] is True
+                                                     and p.blocks.index(c[2]) < p.blocks.index(blk) for c in p.conds if c[2] in p.blocks) for p in through)
     for bb, blk, st in aggs:
         if bb.path == b.path:
-            res.check(len(edges) == 1 and only_via_edge(b, blk, edges), 'DOM', b.path, 'the announce_peer construction is reached only through will_announce == true', site=st['sp'])
+            res.check((len(edges) == 1 and only_via_edge(b, blk, edges)) or on_all_paths(blk), 'DOM', b.path, 'the announce_peer construction is reached only through will_announce == true', site=st['sp'])
     for st in ctx.calls_in(b, 'socket::Socket::send'):
-        res.check(len(edges) == 1 and only_via_edge(b, st.block, edges), 'DOM', b.path, 'the finishing routine sends only under will_announce == true', site=st.where, key='send-under-will-announce')
+        res.check((len(edges) == 1 and only_via_edge(b, st.block, edges)) or on_all_paths(st.block), 'DOM', b.path, 'the finishing routine sends only under will_announce == true', site=st.where, key='send-under-will-announce')
     ws = ctx.field_writes(r'^action::lookup::TableLookup$', 'will_announce')
     res.check(not ws, 'WHO', L + 'will_announce', 'will_announce is fixed at construction', detail='%s' % [x[0].path for x in ws])
     k = ctx.f.const_value('action::lookup::ANNOUNCE_PICK_NUM')
@@ -251,6 +257,8 @@ def rule_announce(ctx, res, content=True):
         src = pl[0][1]
         if names[-1] == 'into_iter':
             names = names[:-1]
+        if names[-1] == 'collect' and len(names) > 2:
+            names = names[:-1]          # collected into a Vec first, then iterated: same elements in the same order
         want_names = ['src', 'iter', 'filter', 'take']
         if names in (['src'], ['src', 'iter']) and self_field(pl[0][1], 'all_sorted_nodes'):
             # form C: an explicit loop over the candidate list with a counter:
@@ -393,21 +401,36 @@ def _announce_form_b(ctx, res, pl, dest, tok, nx):
             return False, 'filter_map closure is not a lookup in announce_tokens'
         lit = literal(somes[0].conds[0])
         g = strip_transparent(lit[1])
-        if not (lit[0] == 'variant' and option_is_some(lit[2]) is True and g[0] == 'call' and g[1].split('::')[-1] == 'get' and literal(nones[0].conds[0])[1] == lit[1]):
+        found = option_is_some(lit[2]) is True
+        dc = 'Some'
+        if lit[0] == 'variant' and g[0] == 'call' and g[1].endswith('Try>::branch') and len(g[2]) == 1:
+            # `let token = tokens.get(node)?;`
+            found = lit[2] == 0
+            dc = 'Continue'
+            g = strip_transparent(g[2][0])
+        if not (lit[0] == 'variant' and found and g[0] == 'call' and g[1].split('::')[-1] == 'get' and literal(nones[0].conds[0])[1] == lit[1]):
             return False, 'filter_map closure is not a lookup in announce_tokens'
         recv, key = strip_transparent(g[2][0]), strip_transparent(g[2][1])
         ch = field_chain(recv)
         caps = [strip_transparent(c) for c in fcl[2]]
         cap = caps[kb.upvars.index(ch[0])] if ch and ch[0] in kb.upvars and is_param(root_of(recv)) and root_of(recv)[1] == 1 else None
         if cap is None or not self_field(cap, 'announce_tokens'):
-            return False, 'the map consulted is not announce_tokens'
+            # the closure captured `self` as a whole: read the receiver with the captured values substituted
+            _kb2, ks2 = lib.closure_sym(ctx, fcl, res)
+            recv2 = None
+            for p2 in ks2.complete_paths():
+                for c2 in p2.conds:
+                    for gc in find_calls(literal(c2)[1], '::get'):
+                        recv2 = strip_transparent(gc[2][0])
+            if recv2 is None or not self_field(recv2, 'announce_tokens'):
+                return False, 'the map consulted is not announce_tokens'
         if not (is_param(root_of(key)) and root_of(key)[1] == 2 and field_chain(key)[-1:] == ['1']):
             return False, 'the key is not the node of the candidate entry'
         tup = somes[0].ret[2].get('0')
         if not (isinstance(tup, tuple) and tup[0] == 'agg' and tup[1] == 'tuple'):
             return False, 'the element is not (node, token)'
         e0, e1 = strip_transparent(tup[2].get('0')), strip_transparent(tup[2].get('1'))
-        payload = ('field', ('downcast', lit[1], 'Some'), '0')
+        payload = ('field', ('downcast', lit[1], dc), '0')
         if strip_transparent(e1) != strip_transparent(payload) and e1 != payload:
             return False, 'second component is not the token found'
         if not (is_param(root_of(e0)) and root_of(e0)[1] == 2 and field_chain(e0)[-1:] == ['1']):
@@ -1035,8 +1058,8 @@ def _iter_domain(ctx, res, t):
             src = strip_transparent(st[1])
             while isinstance(src, tuple) and src and src[0] == 'call' and src[1].split('::')[-1] in ('iter', 'deref', 'as_slice', 'into_iter'):
                 src = strip_transparent(src[2][0])
-        elif st[0] in ('copied', 'cloned', 'iter', 'into_iter'):
-            continue
+        elif st[0] in ('copied', 'cloned', 'iter', 'into_iter', 'map'):
+            continue          # element-wise stages: the domain has as many elements as before
         elif st[0] == 'filter':
             cl = st[1]
             sig = ('closure', fmt(cl))
@@ -1053,12 +1076,18 @@ def _iter_domain(ctx, res, t):
                         if inner[0] == 'call' and inner[1].split('::')[-1] == 'contains':
                             cap = strip_transparent(inner[2][0])
                             elem = strip_transparent(inner[2][1])
-                            # the receiver is a captured variable: resolve it through the closure's capture list
-                            ch = field_chain(cap)
-                            if ch and len(ch) == 1 and ch[0] in cb.upvars and is_param(root_of(cap)) and root_of(cap)[1] == 1 \
-                                    and is_param(root_of(elem)) and root_of(elem)[1] == 2 and not field_chain(elem):
-                                capt = cl[2][cb.upvars.index(ch[0])]
-                                sig = ('not-in', fmt(strip_transparent(capt)))
+                            # the receiver is a captured variable (or a field of a captured `self`): read it with the captured
+                            # values substituted and name it by its root and field path
+                            if is_param(root_of(elem)) and root_of(elem)[1] == 2 and not field_chain(elem):
+                                try:
+                                    _b2, cs2 = lib.closure_sym(ctx, cl, res)
+                                    c2 = cs2.complete_paths()
+                                    r2 = strip_transparent(c2[0].ret) if len(c2) == 1 else None
+                                    rc = strip_transparent(strip_transparent(r2[2])[2][0]) if r2 is not None and r2[0] == 'un' else None
+                                    if rc is not None and is_param(root_of(rc)) and field_chain(rc):
+                                        sig = ('not-in', '%s.%s' % (root_of(rc)[2], '.'.join(field_chain(rc))))
+                                except (Lost, IndexError, TypeError):
+                                    pass
             preds.append(sig)
         else:
             preds.append(('other', st[0]))
